@@ -259,6 +259,60 @@ let parse_aop name (args : arg list) : aop =
   | "shutdown", [] -> AShutdown
   | _ -> failwith ("unknown autoref operation or wrong arity: " ^ name)
 
+(* ---- MDD managers (ids m0, m1, ...) ---- *)
+let a_triple f g h = function
+  | P (a, P (b, c)) -> (f a, (g b, h c))
+  | P (a, L [b; c]) -> (f a, (g b, h c))
+  | _ -> failwith "triple expected"
+let parse_mop name (args : arg list) : mop =
+  match name, args with
+  | "new", [d] -> MNew (a_list (a_triple a_nat a_nat a_nat) d)
+  | "find_or_add", [i; ns] -> MFindOrAdd (a_nat i, a_list a_z ns)
+  | "ite", [g; u; v] -> MIte (a_z g, a_z u, a_z v)
+  | "apply", [A o; u; v; w] -> MApply (cstring_of_string o, a_z u, a_opt a_z v, a_opt a_z w)
+  | "incref", [u] -> MIncref (a_z u)
+  | "decref", [u] -> MDecref (a_z u)
+  | "ref", [u] -> MRef (a_z u)
+  | "gc", [] -> MGc
+  | "tape", [t] -> MTape (a_list a_pos t)
+  | _ -> failwith ("unknown MDD operation or wrong arity: " ^ name)
+
+let show_mdigest (d : mdig) =
+  let ints (i, ns) = int_of_nat i :: List.map int_of_z ns in
+  let tup l = "(" ^ String.concat "," (List.map string_of_int l) ^ ")" in
+  let succ = List.sort Stdlib.compare (List.map (fun (u, t) -> (int_of_pos u, ints t)) d.md_succ) in
+  let pred = List.sort Stdlib.compare (List.map (fun (t, u) -> (ints t, int_of_pos u)) d.md_pred) in
+  let refs = List.map (fun (u, r) -> (int_of_pos u, int_of_nat r)) d.md_ref in
+  let ite = List.map (fun (((g, u), v), w) ->
+      ((int_of_z g, int_of_z u, int_of_z v), int_of_z w)) d.md_ite in
+  let plain f l = "{" ^ String.concat ";" (List.map f l) ^ "}" in
+  String.concat " " [
+    "succ=" ^ plain (fun (u, t) -> Printf.sprintf "%d:%s" u (tup t)) succ;
+    "pred=" ^ plain (fun (t, u) -> Printf.sprintf "%s:%d" (tup t) u) pred;
+    "ref=" ^ show_dict (fun (u, r) -> Printf.sprintf "%d:%d" u r) refs;
+    "max=" ^ string_of_int (int_of_pos d.md_max);
+    "free=" ^ plain string_of_int (List.sort Stdlib.compare (List.map int_of_pos d.md_free));
+    "ite=" ^ plain (fun ((a, b, c), w) -> Printf.sprintf "(%d,%d,%d):%d" a b c w)
+               (List.sort Stdlib.compare ite) ]
+
+(* ---- dddmp: header fields and body lines ---- *)
+let a_info = function
+  | A "T" -> DTerm
+  | A s when String.length s > 1 && s.[0] = 'i' -> DInt (nat_of_int (int_of_string (String.sub s 1 (String.length s - 1))))
+  | A s when String.length s > 1 && s.[0] = 'n' -> DName (nat_of_int (int_of_string (String.sub s 1 (String.length s - 1))))
+  | _ -> failwith "info expected"
+let a_header = function
+  | L [nv; vi; ord; sup; ns; ids; perm; aux; nr; roots; nn] ->
+      { dh_nvars = a_nat nv; dh_varinfo = a_nat vi;
+        dh_ordered = a_opt (a_list a_nat) ord; dh_support = a_opt (a_list a_nat) sup;
+        dh_nsupp = a_nat ns; dh_ids = a_list a_nat ids; dh_permids = a_list a_nat perm;
+        dh_auxids = a_opt (a_list a_nat) aux; dh_nroots = a_nat nr;
+        dh_roots = a_list a_z roots; dh_nnodes = a_nat nn }
+  | _ -> failwith "header expected"
+let a_dnode = function
+  | P (u, P (i, P (t, e))) -> { dn_id = a_pos u; dn_info = a_info i; dn_then = a_z t; dn_else = a_z e }
+  | _ -> failwith "node expected"
+
 let show_adigest (d, hs) =
   let hs = List.map (fun (h, u) -> (int_of_nat h, int_of_z u)) hs in
   show_digest d ^ " handles=" ^ show_dict (fun (h, u) -> Printf.sprintf "%d:%d" h u) hs
@@ -266,6 +320,7 @@ let show_adigest (d, hs) =
 let () =
   let world = Stdlib.ref world2_empty in
   let aworld = Stdlib.ref aworld_empty in
+  let mworld = Stdlib.ref mworld_empty in
   let full = Stdlib.ref true in
   (try
      while true do
@@ -275,7 +330,7 @@ let () =
        match toks with
        | [] -> ()
        | "#" :: _ -> ()
-       | ["!reset"] -> world := world2_empty; aworld := aworld_empty
+       | ["!reset"] -> world := world2_empty; aworld := aworld_empty; mworld := mworld_empty
        | ["!mode"; "full"] -> full := true
        | ["!mode"; "result"] -> full := false
        | ["!digest"; m] when String.length m > 1 && m.[0] = 'a' ->
@@ -284,6 +339,27 @@ let () =
        | ["!digest"; m] ->
            let m = nat_of_int (int_of_string m) in
            print_endline ("digest\t" ^ show_digest (digest (world2_get !world m)))
+       | [k; "bdd_to_mdd"; m; dv; ord] ->
+           let mi = nat_of_int (int_of_string (String.sub m 1 (String.length m - 1))) in
+           let k = nat_of_int (int_of_string k) in
+           let dv = a_list (a_triple a_nat a_nat (a_list a_nat)) (parse_arg dv) in
+           let ((w', mw'), r) = step_bdd_to_mdd !world !mworld k mi dv (a_list a_pos (parse_arg ord)) in
+           world := w'; mworld := mw';
+           print_endline (if !full then show_res r ^ "\t" ^ show_mdigest (mdigest (mworld_get mw' mi))
+                                         ^ " | " ^ show_digest (digest (world2_get w' k))
+                          else show_res r)
+       | [m; "dddmp_load"; h; ns] ->
+           let m = nat_of_int (int_of_string m) in
+           let (w', r) = step_dddmp !world m (a_header (parse_arg h)) (a_list a_dnode (parse_arg ns)) in
+           world := w';
+           print_endline (if !full then show_res r ^ "\t" ^ show_digest (digest (world2_get w' m))
+                          else show_res r)
+       | m :: name :: args when String.length m > 1 && m.[0] = 'm' ->
+           let mi = nat_of_int (int_of_string (String.sub m 1 (String.length m - 1))) in
+           let (w', r) = mstep !mworld mi (parse_mop name (List.map parse_arg args)) in
+           mworld := w';
+           print_endline (if !full then show_res r ^ "\t" ^ show_mdigest (mdigest (mworld_get w' mi))
+                          else show_res r)
        | ["parse"; sp] ->
            print_endline (show_res (parse_show (a_spellings (parse_arg sp))))
        | [m; "add_expr"; sp] when String.length m > 1 && m.[0] = 'a' ->
